@@ -36,6 +36,11 @@ def hand_export(name: str):
 
     from vlib import fnmods
 
+    if name == "gather_const_indices":
+        g = lambda x: lax.gather(x, lax.reshape(jnp.array([2, 0]), (2, 1)), lax.GatherDimensionNumbers(offset_dims=(1,), collapsed_slice_dims=(0,), start_index_map=(0,)), (1, 4))  # noqa: E731
+        return to_onnx(lambda x: g(x) * 2.0 + x[jnp.array([1, 1])], [(3, 4)])
+    if name == "input_params_forwarded":
+        return to_onnx(fnmods.c14_outer_params, [("B", 4)], input_params={"deterministic": True, "scale": np.float32(2.0), "flag": False})
     if name == "nchw_add_forest":
         return to_onnx(lambda a, b, c: (a + b) + (c + a) * 2.0, [(2, 3, 3, 3)] * 3, inputs_as_nchw=[0, 1, 2], outputs_as_nchw=[0])
     if name == "function_dedup_array_captures":
@@ -57,7 +62,7 @@ def hand_export(name: str):
     raise KeyError(name)
 
 
-HAND = ["nchw_add_forest", "function_dedup_array_captures", "nested_functions", "loops_and_conds", "symbolic_two", "many_transposes", "double_consts"]
+HAND = ["gather_const_indices", "input_params_forwarded", "nchw_add_forest", "function_dedup_array_captures", "nested_functions", "loops_and_conds", "symbolic_two", "many_transposes", "double_consts"]
 
 
 def _requests(tier: str, seed: int) -> list[str]:
